@@ -143,19 +143,19 @@ def lazify_task(task, start=True):
             refs: defaultdict = defaultdict(int)
             for v in subgraph.values():
                 _count_references(v, refs)
-            # The output may be an alias of an inner key (a partition that
-            # ``concat`` or ``repartition`` hand on unchanged): then that inner
-            # key is the output and keeps its list as well.
-            outputs = {outkey}
-            target = outkey
-            while (
-                isinstance(subgraph.get(target), Alias)
-                and subgraph[target].target not in outputs
-            ):
-                target = subgraph[target].target
-                outputs.add(target)
+            # The output, or a key that is read several times, may be an alias
+            # of an inner key (a partition that ``concat`` or ``repartition``
+            # hand on unchanged): an alias hands on the very same object, so
+            # its target has to stay a list as well.
+            keep = {outkey} | {k for k, n in refs.items() if n > 1}
+            todo = list(keep)
+            while todo:
+                node = subgraph.get(todo.pop())
+                if isinstance(node, Alias) and node.target not in keep:
+                    keep.add(node.target)
+                    todo.append(node.target)
             subgraph = {
-                k: lazify_task(v, k in outputs or refs[k] > 1)
+                k: lazify_task(v, k in keep)
                 for k, v in subgraph.items()
                 if k != outkey
             }
